@@ -5,6 +5,7 @@ package main
 import (
 	"fmt"
 	"go/types"
+	"strings"
 
 	"golang.org/x/tools/go/ssa"
 )
@@ -30,16 +31,11 @@ func (e *Enc) elemLeaves(elem types.Type) []leaf { return leavesOf(elem) }
 
 func (e *Enc) initMap(st *State, ref T, mt types.Type) {
 	m := under(mt).(*types.Map)
-	kl := leavesOf(m.Key())
-	if len(kl) != 1 || isArrSort(kl[0].sort) && false {
+	if _, isIface := under(m.Key()).(*types.Interface); isIface {
 		return
 	}
 	dk := "md:" + typeKey(mt)
-	srt := arrSort(SInt, arrSort(kl[0].sort, SBool))
-	// generic map domain: (Array Int (Array K Bool)) ; only Int-sorted keys index as arrays here
-	if kl[0].sort != SInt {
-		return
-	}
+	srt := arrSort(SInt, arrSort(SInt, SBool))
 	arr := e.get(st, dk, srt)
 	e.noteWrite(dk)
 	st.m[dk] = e.s.Define("st:"+dk, Store(arr, ref, T{"((as const " + arrSort(SInt, SBool) + ") false)", arrSort(SInt, SBool)}))
@@ -120,10 +116,8 @@ func (e *Enc) sliceInstr(fr *Frame, x *ssa.Slice) {
 			// array stored in the heap: its storage ref is the address of the array itself and the
 			// element heap e:<T> is NOT the place where the array lives (arrays are values). Views
 			// of heap arrays as slices are imprecise: contents unknown.
-			e.note("slice of a heap-resident array in " + shortFnName(fr.fn) + ": contents of the slice view are unconstrained and writes through it are not tracked")
-			e.imprecise = append(e.imprecise, "slice-of-heap-array in "+shortFnName(fr.fn))
-			sv.Base = e.s.Const("arrview", SInt)
-			e.s.Assume(Gt(sv.Base, IntLit(0)))
+			e.note("slice of a heap-resident array in " + shortFnName(fr.fn) + ": identified by the array's address; contents of the view are unconstrained and writes through it are not tracked")
+			sv.Base = e.arrView(pv.A)
 		}
 		e.setVal(fr, x, sv)
 	default:
@@ -227,7 +221,72 @@ func (e *Enc) mapKeyTerm(k Val, kt types.Type) (T, bool) {
 	if len(ls) == 1 && ls[0].sort == SInt {
 		return e.scalar(k), true
 	}
-	return T{}, false
+	if _, isIface := under(kt).(*types.Interface); isIface {
+		return T{}, false
+	}
+	// composite keys (structs / arrays of scalars): an injective Int encoding of the leaves
+	var ts []T
+	func() {
+		defer func() {
+			if r := recover(); r != nil {
+				ts = nil
+			}
+		}()
+		ts = e.flatten(k, kt)
+	}()
+	if ts == nil || len(ts) != len(ls) {
+		return T{}, false
+	}
+	allBool := true
+	for _, l := range ls {
+		if l.sort != SBool {
+			allBool = false
+		}
+	}
+	if allBool && len(ts) <= 16 {
+		// mixed-radix encoding: exact and injective
+		var sum []T
+		for i, t := range ts {
+			sum = append(sum, Ite(t, IntBig(pow2(uint(i))), IntLit(0)))
+		}
+		if len(sum) == 1 {
+			return sum[0], true
+		}
+		return App(SInt, "+", sum...), true
+	}
+	var sorts []string
+	for _, l := range ls {
+		sorts = append(sorts, l.sort)
+	}
+	f := e.s.DeclareFun("mkkey:"+typeKey(kt), sorts, SInt)
+	t := App(SInt, f, ts...)
+	// injectivity, instantiated for the pairs of keys seen in this function
+	if !strings.Contains(t.S, "bv!") {
+		prev := e.compositeKeys[typeKey(kt)]
+		seen := false
+		for _, p := range prev {
+			if p.term.S == t.S {
+				seen = true
+				break
+			}
+		}
+		if !seen {
+			for _, p := range prev {
+				var eqs []T
+				for i := range ts {
+					eqs = append(eqs, Eq(ts[i], p.leaves[i]))
+				}
+				e.s.Assume(Eq(Eq(t, p.term), And(eqs...)))
+			}
+			e.compositeKeys[typeKey(kt)] = append(prev, compKey{t, ts})
+		}
+	}
+	return t, true
+}
+
+type compKey struct {
+	term   T
+	leaves []T
 }
 
 func (e *Enc) lookup(fr *Frame, x *ssa.Lookup) {
@@ -362,4 +421,21 @@ func (e *Enc) nextInstr(fr *Frame, x *ssa.Next) {
 		v = e.fresh(tt.At(2).Type(), "next:v")
 	}
 	e.setVal(fr, x, &TupleV{E: []Val{okv, k, v}})
+}
+
+// arrView: storage identity of the slice view x[:] of an array living at address a.
+func (e *Enc) arrView(a Addr) T {
+	f := e.s.DeclareFun("arrview", []string{SInt}, SInt)
+	at, ok := e.structAddr(a)
+	if !ok {
+		c := e.s.Const("arrview:unknown", SInt)
+		return c
+	}
+	t := App(SInt, f, at)
+	k := "arrview-ax:" + t.S
+	if !e.rangeSeen[k] {
+		e.rangeSeen[k] = true
+		e.s.Assume(Gt(t, IntLit(0)))
+	}
+	return t
 }
